@@ -127,6 +127,19 @@ def parent_atoms(rich: bool) -> List[Tuple[str, tuple]]:
         out.append(("lambda-pair", ("not", ("or", lam("all", [coll], var, p1), lam("all", [coll], v2, q2)))))
         out.append(("lambda-pair", ("and", lam("any", [coll], var, p1), lam("all", [coll], v2, q2))))
         out.append(("lambda-pair", ("and", ("and", lam("any", [coll], var, p1), lam("any", [coll], v2, q2)), cmp_("gt", F("n"), K))))
+    # `notes` is a collection on Parent AND on Child: both used as lambda owners in one filter
+    pn = lambda v, txt: lam("any", ["notes"], v, cmp_("eq", P(v, "text"), S(txt)))
+    cn = lambda q, txt: lam("any", ["children"], "c", lam(q, ["c", "notes"], "y", cmp_("eq", P("y", "text"), S(txt))))
+    out.append(("same-name-colls", pn("x", "a")))
+    out.append(("same-name-colls", lam("all", ["notes"], "x", cmp_("eq", P("x", "text"), S("a")))))
+    out.append(("same-name-colls", cn("any", "b")))
+    out.append(("same-name-colls", cn("all", "b")))
+    for op in ("and", "or"):
+        out.append(("same-name-colls", (op, pn("x", "a"), cn("any", "b"))))
+        out.append(("same-name-colls", (op, cn("any", "b"), pn("x", "a"))))
+        out.append(("same-name-colls", (op, ("not", pn("x", "a")), cn("all", "b"))))
+    out.append(("same-name-colls", lam("any", ["notes"], "x", lam("any", ["x", "child", "notes"], "y", cmp_("eq", P("y", "text"), S("a"))))))
+    out.append(("same-name-colls", lam("any", ["notes"])))
     # the root's own column inside a lambda body ($it)
     out.append(("outer-ref", lam("any", ["children"], "c", cmp_("gt", P("c", "k"), F("n")))))
     out.append(("outer-ref", lam("all", ["minions"], "m", cmp_("le", P("m", "n"), F("n")))))
@@ -151,6 +164,10 @@ def child_atoms(rich: bool) -> List[Tuple[str, tuple]]:
             out.append(("to-one", cmp_("le", K, P(rel, "n"))))
             out.append(("to-one", ("call", "startswith", [P(rel, "name"), S("a")])))
             out.append(("to-one", cmp_("eq", P(rel, "n"), F("k"))))
+    out.append(("same-name-colls", lam("any", ["notes"], "x", cmp_("eq", P("x", "text"), S("a")))))
+    out.append(("same-name-colls", lam("all", ["notes"], "x", cmp_("eq", P("x", "text"), S("a")))))
+    out.append(("same-name-colls", lam("any", ["notes"])))
+    out.append(("same-name-colls", ("and", lam("any", ["notes"], "x", cmp_("eq", P("x", "text"), S("a"))), lam("any", ["parent", "notes"]))))
     out.append(("to-one", cmp_("eq", P("parent", "n"), P("owner", "n"))))
     out.append(("to-one", ("and", cmp_("gt", P("parent", "n"), K), cmp_("eq", P("owner", "name"), S("a")))))
     return out
@@ -166,7 +183,15 @@ def ticket_atoms() -> List[Tuple[str, tuple]]:
            ("same-name-rels", ("and", ("and", a1, a2), cmp_("gt", F("n"), K))),
            ("same-name-rels", ("or", cmp_("eq", P("project", "name"), S("a")), ("and", a2, a1))),
            ("to-one2", a1), ("to-one2", a2), ("to-one2", cmp_("eq", P("project", "name"), S("a"))),
-           ("to-one2", cmp_("eq", P("project", "owner"), ("null",))), ("to-one2", ("or", a1, cmp_("eq", F("n"), K)))]
+           ("to-one2", cmp_("eq", P("project", "owner"), ("null",))), ("to-one2", ("or", a1, cmp_("eq", F("n"), K))),
+           # Project.owner_id is NOT NULL but follows the nullable hop Ticket.project: the team may still be missing
+           ("notnull-after-nullable", cmp_("eq", P("project", "owner", "name"), ("null",))),
+           ("notnull-after-nullable", ("or", cmp_("eq", P("project", "owner", "name"), ("null",)), cmp_("eq", F("n"), K))),
+           ("notnull-after-nullable", ("not", a1)),
+           ("notnull-after-nullable", ("or", ("not", a1), cmp_("gt", F("n"), K))),
+           ("notnull-after-nullable", ("and", cmp_("eq", P("project"), ("null",)) if False else cmp_("eq", F("project"), ("null",)),
+                                       cmp_("eq", P("project", "owner", "name"), ("null",)))),
+           ("notnull-after-nullable", ("or", a1, cmp_("eq", F("project"), ("null",))))]
     return out
 
 
